@@ -101,7 +101,8 @@ pub fn registry() -> Vec<Dyn> {
         ESlicePairsString, ESlicePairsStringVec, ESlicePairsStringList, ESliceSliceU8, ESliceSliceString, ESlice3U8,
         ESliceOptionString, ESliceTuple, ESliceResult, ESliceVecU32, ESliceHuffman, ESliceStringDict, ESliceColumns,
         ESliceCollapsePairsString, ESliceCollapseString, ESliceColumnsTuple,
-        ESliceStringPairsOwned, EOptionSliceU8, EResultSliceColumns, ETupleSliceOption
+        ESliceStringPairsOwned, EOptionSliceU8, EResultSliceColumns, ETupleSliceOption,
+        ESliceVecU32Vec, EOptionVecU32, EResultVecVec
         ; usize:
         EPairsString, EPairsStringVec, EPairsStringList, EPairsStringDict,
         ECollapsePairsString, ECollapsePairsStringList,
